@@ -199,6 +199,21 @@ def F19():
     return r == {'a': [1, 2], 'b': {'c': [1, 2]}}, r
 
 
+def F20():
+    """C07.R4c: a safe container evaluated earlier handed the value of its !unsafe child to a call through !xref."""
+    code = ("import sys, types\n"
+            "calls = []\n"
+            "m = types.ModuleType('f20mod'); m.f = lambda **kw: calls.append(kw) or 'ran'; sys.modules['f20mod'] = m\n"
+            "import awesomeyaml as ay\n"
+            "try:\n"
+            "    ay.Config.build('p: {s: !unsafe 1337, t: 1}\\nfn: !call:f20mod.f {x: !xref p}', raw_yaml=True)\n"
+            "    print('built', calls)\n"
+            "except Exception as e:\n"
+            "    print(type(e).__name__, calls)\n")
+    rc, out, err = _sub(code)
+    return out.startswith(('EvalError []', 'UnsafeError []')), (rc, out, err[-120:])
+
+
 def K1():
     """C12.R1 known finding: namespace cached in sys.modules across builds."""
     code = ("import awesomeyaml as ay\n"
@@ -271,7 +286,7 @@ def K6():
     return out == str(sum(range(130))), (rc, out, err[-120:])
 
 
-ALL = ['F%d' % i for i in range(1, 20)] + ['K1', 'K2', 'K3', 'K4', 'K5', 'K6', 'K7']
+ALL = ['F%d' % i for i in range(1, 21)] + ['K1', 'K2', 'K3', 'K4', 'K5', 'K6', 'K7']
 
 if __name__ == '__main__':
     if len(sys.argv) == 3 and sys.argv[1] == '--one':
